@@ -12,3 +12,11 @@ func VerifComputeAcceptKey(k string) string { return computeAcceptKey(k) }
 
 // VerifMaskBytes exposes the masking function.
 func VerifMaskBytes(key [4]byte, b []byte) { maskBytes(key, b) }
+
+// VerifClientAccept returns the accept key the client read out of the server's answer to its upgrade request.
+func VerifClientAccept(c *Client) string {
+	return c.httpClient.GetRequest().GetHeader("Sec-WebSocket-Accept")
+}
+
+// VerifClientWrite writes raw bytes on the client's connection (a frame built by the harness).
+func VerifClientWrite(c *Client, b []byte) error { return c.con.conn.Write(b) }
